@@ -80,10 +80,10 @@ def gen_batch(prop, tier, exclude, nbins=16):
     d = e2e_dir(prop, tier)
     os.makedirs(d, exist_ok=True)
     p = run([E2E_GEN, prop, tier, d, str(nbins), os.path.join(HARNESS, "refmodel"), ",".join(map(str, sorted(exclude)))])
-    total, bins = map(int, p.stdout.split())
+    total, bins, prefix = p.stdout.split()
     if not os.path.exists(os.path.join(d, "Cargo.lock")):
         shutil.copy("/repo/Cargo.lock", os.path.join(d, "Cargo.lock"))
-    return d, total, bins
+    return d, int(total), int(bins)
 
 
 def build_batch(d, timeout):
@@ -160,13 +160,18 @@ def defs_table(d):
     return t
 
 
+def bin_prefix(d):
+    prop, tier = os.path.basename(d).split("-")
+    return f"{prop.lower()}{tier[0]}"
+
+
 def run_bins(d, bins, timeout):
     env = dict(ENV)
     env["VERIF_DUMP_DIR"] = os.path.join(d, "dumps")
     env["VERIF_THREADS"] = str(max(2, (2 * NCPU) // max(1, bins)))
     procs = []
     for b in range(bins):
-        exe = os.path.join(TARGET_E2E, "release", f"b{b}")
+        exe = os.path.join(TARGET_E2E, "release", f"{bin_prefix(d)}_b{b}")
         def limits():
             b_ = 12 << 30
             resource.setrlimit(resource.RLIMIT_AS, (b_, b_))
